@@ -393,12 +393,26 @@ def run_shard(sh):
         idx += 1
         if sh.mine(idx):
             check_commented(sh, i)
+    # containers longer than the DEFAULT limit (1000), at top level and nested, with None / larger / equal limits
+    big = 0
+    for n in (1000, 1001, 1500):
+        for holder in ('top', 'list', 'dictvalue', 'tuple-in-list', 'nt', 'set'):
+            for N in (None, 5000, n, n - 1, 1000):
+                big += 1
+                if not sh.mine(big):
+                    continue
+                inner = ['set', [['int', j] for j in range(n)]] if holder == 'set' else ['list', [['int', j] for j in range(n)]]
+                recipe = {'top': inner, 'set': ['list', [inner]], 'list': ['list', [['int', -1], inner]], 'dictvalue': ['dict', [[['str', 'k'], inner]]],
+                          'tuple-in-list': ['list', [['tuple', [inner, ['int', -2]]]]], 'nt': ['call', 'NTH', [], [['a', inner], ['b', ['int', 0]]]]}[holder]
+                check_one(sh, recipe, N, 79, False)
+                sh.case(('big', n, holder, N), nontrivial=True)
+                sh.counters['containers longer than the default limit'] += 1
 
 
 def finalize(m):
     for name in ('notices verified', 'prints with truncation', 'prints with nested truncations', 'prints with max_seq_len=None',
                  'word-wrapped notices (width 1)', 'prints without truncation', 'commented truncations verified',
-                 'prints with both a truncation notice and user comments', 'notices joined with a trailing comment'):
+                 'prints with both a truncation notice and user comments', 'notices joined with a trailing comment', 'containers longer than the default limit'):
         if not m.counters.get(name):
             m.inconclusive.append('monitor never reached: ' + name)
 
